@@ -110,6 +110,7 @@ theorem packEntry_good (e : FsEntry) (hg : GoodEntry e) (b : Bucket) :
       cases mt with
       | mk sec nsec => simp only at this; subst this; rfl
   simp only [hm]
+  rw [if_neg hg.kind.1]
   obtain ⟨h, hh⟩ := metaToTarHdr_some e hg
   have : ∃ h', metaToTarHdr e.m (e.chash) = some h' := ⟨h, hh⟩
   rw [hh]
